@@ -243,6 +243,22 @@ def build_program(name, active, chosen, regkind, devkind, mode, assign=None):
     return seq, V, mapping
 
 
+_POS = {}
+
+
+def plain_positions(name, active):
+    key = (name, tuple(active))
+    if key not in _POS:
+        with warnings.catch_warnings():
+            warnings.simplefilter("ignore")
+            try:
+                _, V, _ = build_program(name, active, {}, "2d", "virtual", "plain")
+                _POS[key] = {p: (b, i) for p, b, i in V.positions}
+            except Exception:
+                _POS[key] = {}
+    return _POS[key]
+
+
 def cases(tier):
     out = []
     for name, (fn, nst) in PROGRAMS.items():
@@ -263,12 +279,16 @@ def cases(tier):
         psets = [(p,) for p in range(npos)] + [tuple(range(npos))]
         if tier == "thorough":
             psets += list(itertools.combinations(range(npos), 2))
-        kinds = [e[0] for e in c08.EXPRS]
+        kinds = [e[0] for e in c08.EXPRS if e[0] != "round"]  # numpy.round is not exportable (known finding)
         for pi, ps in enumerate(psets):
             for act in ((), (1,), (nst - 2,), (nst - 1,)):
-                chosen = tuple((p, kinds[(pi + p + len(act)) % len(kinds)]) for p in ps)
+                pos = plain_positions(name, act)
+                chosen = tuple((p, c08.pick(kinds, pi + p + len(act), pos[p][0], pos[p][1], p)) for p in ps if p in pos)
+                if not chosen:
+                    continue
                 out.append((name, act, chosen, "2d", "virtual"))
                 out.append((name, act, chosen, "mappable", "virtual"))
+        out.append((name, (), ((0, "round"),), "2d", "virtual"))
     # de-duplicate
     seen = set()
     uniq = []
